@@ -30,13 +30,16 @@ func (check) Cases(tier string) int {
 }
 
 func (check) Rule() string {
-	return "histories of 5-40 operations (SetBool/Int/Uint/Float/String, SetChild of a fresh config, Remove, default Merge, Child) over 16 overlapping addresses in both spellings (name+idx and dotted), with and without PathSep, applied to the root and to child handles obtained mid-history; after EVERY step the whole tree is compared with the tree-store model (frame condition) and 6 random addresses are probed through String/Int/Uint/Float/Bool/Has/Child/CountField/IsDict/IsArray; writes are read back through the equivalent spelling. Non-trivial = history with at least 3 successful mutations touching overlapping addresses; distinct = distinct operation sequence."
+	return "histories of 5-40 operations (SetBool/Int/Uint/Float/String, SetChild of a fresh config, Remove, default Merge, Child) over 16 overlapping addresses in both spellings (name+idx and dotted), with and without PathSep, applied to the root and to child handles obtained mid-history (handles of containers, of nil settings, and handles kept across Merges that merge into the container they view); after EVERY step the whole tree is compared with the tree-store model (frame condition), every handle must still show its place, and 6 random addresses plus 2 addresses of existing settings are probed through String/Int/Uint/Float/Bool/Has/Child/CountField(address, with the separator: top-level names, dotted paths, index names)/IsDict/IsArray; writes are read back through the equivalent spelling. Non-trivial = history with at least 3 successful mutations touching overlapping addresses; distinct = distinct operation sequence."
 }
 
 func (check) Assumptions() []string {
 	return []string{
 		"tree-store model written from the statement (internal/model/store.go): set creates intermediates, writing past the end pads with nil, removing from a list shifts down, a primitive in the middle of a path is an error that changes nothing",
-		"not demanded: error wording; negative indices (C07/C20); IsDict/IsArray for a part emptied by removals; liveness of a handle obtained from a nil setting; liveness of a handle after a Merge replaced the setting it views (Merge copies, C10)",
+		"Merge on a plain tree (tree.go): where both sides are containers the contents are merged into the destination's container, which stays the object it was - a handle obtained before is a live view afterwards too; a handle is only given up when the setting it views was replaced (by a primitive, by a write through a nil, by a container over a nil) or removed; nil merged onto nil is nil",
+		"a config returned by Child for a nil setting is a child config like any other: the first write through it must be visible through the parent (the nil becomes that container); of several handles taken from the same nil only the first one written through is followed",
+		"CountField(address) is asked like a getter (same options): it must find what the getters find at the address; the number for an empty container is not pinned down (0 or 1)",
+		"not demanded: error wording; negative indices (C07/C20); IsDict/IsArray for a part emptied by removals",
 		"getter conversions only on small values (boundaries are C03)",
 	}
 }
@@ -47,6 +50,11 @@ type handle struct {
 	c    *ucfg.Config
 	n    *model.Node
 	desc string
+	// ofNil: obtained by Child of a nil setting
+	ofNil bool
+	// born: number of the step the handle was obtained in; a handle obtained
+	// through another handle is as old as that one (it shares its fate)
+	born int
 }
 
 type hist struct {
@@ -54,9 +62,16 @@ type hist struct {
 	r       *rand.Rand
 	sep     string
 	o       []ucfg.Option
-	root    handle
-	handles []handle
-	log     []string
+	root    *handle
+	handles []*handle
+	nh      int
+	stepNo  int
+	// containers a Merge merged into in place (number of the last such step) / nil nodes that came from nil merged onto nil
+	mergedInto map[*model.Node]int
+	nilOnNil   map[*model.Node]bool
+	// containers that were a nil setting until the first write through a child handle of that nil
+	wasNil map[*model.Node]bool
+	log        []string
 	muts    int
 	failed  bool
 	verbose bool
@@ -64,6 +79,12 @@ type hist struct {
 
 func (h *hist) fail(sig, format string, a ...interface{}) {
 	h.failed = true
+	h.res.Violate(sig, "%s; sep=%q history=[%s]", fmt.Sprintf(format, a...), h.sep, strings.Join(h.log, "; "))
+}
+
+// note reports a deviation of an observer that leaves the model and the
+// library in step: the history goes on (other deviations stay reachable).
+func (h *hist) note(sig, format string, a ...interface{}) {
 	h.res.Violate(sig, "%s; sep=%q history=[%s]", fmt.Sprintf(format, a...), h.sep, strings.Join(h.log, "; "))
 }
 
@@ -83,8 +104,8 @@ func (h *hist) addr() (string, int) {
 	return name, idx
 }
 
-func (h *hist) live() []handle {
-	out := []handle{h.root}
+func (h *hist) live() []*handle {
+	out := []*handle{h.root}
 	for _, x := range h.handles {
 		if model.Reachable(h.root.n, x.n) {
 			out = append(out, x)
@@ -101,7 +122,7 @@ func smallTree(r *rand.Rand) *model.Node {
 func (check) Run(seed int64, tier string, idx int, verbose bool) harness.Result {
 	res := harness.NewR(idx)
 	r := rand.New(rand.NewSource(harness.Mix(seed, "C12", idx)))
-	h := &hist{res: res, r: r, verbose: verbose}
+	h := &hist{res: res, r: r, verbose: verbose, mergedInto: map[*model.Node]int{}, nilOnNil: map[*model.Node]bool{}, wasNil: map[*model.Node]bool{}}
 	switch r.Intn(8) {
 	case 0, 1:
 	case 2:
@@ -114,7 +135,7 @@ func (check) Run(seed int64, tier string, idx int, verbose bool) harness.Result 
 		h.sep = "."
 		h.o = []ucfg.Option{ucfg.PathSep(".")}
 	}
-	h.root = handle{ucfg.New(), &model.Node{Kind: model.KSub}, "root"}
+	h.root = &handle{c: ucfg.New(), n: &model.Node{Kind: model.KSub}, desc: "root"}
 	n := 5 + r.Intn(36)
 	panicked, pv, where := harness.Safe(func() {
 		for s := 0; s < n && !h.failed; s++ {
@@ -138,6 +159,7 @@ func (check) Run(seed int64, tier string, idx int, verbose bool) harness.Result 
 
 func (h *hist) step() {
 	r := h.r
+	h.stepNo++
 	targets := h.live()
 	t := targets[r.Intn(len(targets))]
 	if len(targets) > 1 && r.Intn(2) == 0 {
@@ -186,6 +208,9 @@ func (h *hist) step() {
 			}
 			err = t.c.SetChild(name, idx, src.c, h.o...)
 			val, what = src.n.Copy(), fmt.Sprintf("SetChild(handle %s=%s)", src.desc, src.n)
+			if src.n.Kind == model.KNil {
+				val = &model.Node{Kind: model.KSub} // the config seen through a nil is an empty one
+			}
 			h.res.Ev("setchild_of_parented_handle", 1)
 		default:
 			sub := smallTree(r)
@@ -200,14 +225,25 @@ func (h *hist) step() {
 				// the config passed to SetChild is the child now: keep it as a live handle
 				defer func(v *model.Node) {
 					if !h.failed {
-						h.handles = append(h.handles, handle{sc, v, "setchild-handle"})
+						h.handles = append(h.handles, &handle{c: sc, n: v, desc: "setchild-handle", born: h.bornVia(t)})
 					}
 				}(val)
 			}
 		}
 		h.res.Eval(1)
 		h.log = append(h.log, fmt.Sprintf("%s.%s@(%q,%d)", t.desc, what, name, idx))
+		viaNil := t.n.Kind == model.KNil
+		if viaNil {
+			t.n.Kind = model.KSub // the nil viewed by t becomes the container written to
+		}
 		ok := model.Set(t.n, fs, val)
+		if viaNil {
+			if ok {
+				h.written(t)
+			} else {
+				t.n.Kind = model.KNil
+			}
+		}
 		if ok != (err == nil) {
 			h.fail("set-outcome", "write outcome: model ok=%v, library err=%v", ok, err)
 			return
@@ -252,9 +288,19 @@ func (h *hist) step() {
 			h.fail("merge-error", "Merge failed: %v", err)
 			return
 		}
-		model.MergeCopying(t.n, sub, model.PDefault)
+		if t.n.Kind == model.KNil && len(sub.D)+len(sub.A) > 0 {
+			t.n.Kind = model.KSub
+			h.written(t)
+		}
+		h.merge(t.n, sub)
 		h.muts++
 		h.res.SetAdd("op", "merge")
+		for _, x := range h.live()[1:] {
+			if p, ok := pathTo(h.root.n, x.n); ok && h.underMerged(h.root.n, p, h.stepNo-1) {
+				h.res.Ev("handles_live_across_merge_into_their_place", 1)
+				break
+			}
+		}
 	default: // obtain a child handle
 		node, e := model.Get(t.n, fs)
 		ch, err := t.c.Child(name, idx, h.o...)
@@ -265,9 +311,15 @@ func (h *hist) step() {
 			h.fail("child-outcome", "Child: model ok=%v library err=%v", wantOK, err)
 			return
 		}
-		if err == nil && node.IsSub() && len(h.handles) < 6 {
-			h.handles = append(h.handles, handle{ch, node, fmt.Sprintf("h%d", len(h.handles))})
+		if err == nil && (node.IsSub() || node.Kind == model.KNil) && len(h.handles) < 6 {
+			x := &handle{c: ch, n: node, desc: fmt.Sprintf("h%d", h.nh), ofNil: node.Kind == model.KNil, born: h.bornVia(t)}
+			h.nh++
+			h.handles = append(h.handles, x)
 			h.res.Ev("child_handles", 1)
+			if x.ofNil {
+				x.desc += "(of nil)"
+				h.res.Ev("child_handles_of_nil_setting", 1)
+			}
 		}
 	}
 	if h.failed {
@@ -283,13 +335,16 @@ func (h *hist) step() {
 	if want := h.root.n.CanonTop(); got != want {
 		sig := "state-mismatch"
 		if t.c != h.root.c {
-			sig = "state-mismatch-after-write-through-child"
+			sig = h.staleClass(t, "state-mismatch-after-write-through-child")
 		}
 		h.fail(sig, "tree differs after step: got %s want %s", got, want)
 		return
 	}
 	if t.c != h.root.c {
 		h.res.Ev("steps_through_child_handle", 1)
+		if p, ok := pathTo(h.root.n, t.n); ok && h.underMerged(h.root.n, p, t.born) {
+			h.res.Ev("steps_through_handle_kept_across_merge", 1)
+		}
 	}
 	// every live handle views its node
 	for _, x := range h.live()[1:] {
@@ -299,10 +354,11 @@ func (h *hist) step() {
 			return
 		}
 		if w := x.n.CanonTop(); g != w {
-			h.fail("child-view-stale", "handle %s shows %s, the tree holds %s there", x.desc, g, w)
+			h.fail(h.staleClass(x, "child-view-stale"), "handle %s shows %s, the tree holds %s there", x.desc, g, w)
 			return
 		}
 	}
+	targets = h.live() // handles given up during the step are not asked any more
 	for k := 0; k < 6 && !h.failed; k++ {
 		pn, pi := h.addr()
 		tt := targets[r.Intn(len(targets))]
@@ -311,12 +367,45 @@ func (h *hist) step() {
 		}
 		h.probeAt(tt, pn, pi, "probe")
 	}
+	// addresses of settings that exist (the pool above often misses them)
+	for k := 0; k < 2 && !h.failed; k++ {
+		tt := targets[r.Intn(len(targets))]
+		if !model.Reachable(h.root.n, tt.n) {
+			tt = h.root
+		}
+		if pn, pi, ok := h.walkAddr(tt); ok {
+			h.probeAt(tt, pn, pi, "probe-existing")
+			h.res.Ev("probes_of_existing_settings", 1)
+		}
+	}
+}
+
+func (h *hist) bornVia(t *handle) int {
+	if t != h.root {
+		return t.born
+	}
+	return h.stepNo
+}
+
+// written: the first write through a handle of a nil setting has turned the
+// nil into the container the handle views. Other handles taken from the same
+// nil are not followed any further.
+func (h *hist) written(t *handle) {
+	h.res.Ev("writes_through_child_of_nil_setting", 1)
+	h.wasNil[t.n] = true
+	keep := h.handles[:0]
+	for _, x := range h.handles {
+		if x == t || x.n != t.n {
+			keep = append(keep, x)
+		}
+	}
+	h.handles = keep
 }
 
 func feq(a, b float64) bool { return a == b || (math.IsNaN(a) && math.IsNaN(b)) }
 
 // probeAt reads one address through every observer and compares with the model.
-func (h *hist) probeAt(t handle, name string, idx int, why string) {
+func (h *hist) probeAt(t *handle, name string, idx int, why string) {
 	fs := model.ParsePath(name, idx, h.sep)
 	at := fmt.Sprintf("%s %s(%q,%d)", why, t.desc, name, idx)
 	has, herr := t.c.Has(name, idx, h.o...)
@@ -360,7 +449,7 @@ func (h *hist) probeAt(t handle, name string, idx int, why string) {
 		}
 		for _, o := range list {
 			if (o.err != nil) != o.want.Err {
-				h.fail("getter-outcome", "%s: %s err=%v, model err=%v (node %s)", at, o.name, o.err, o.want.Err, node)
+				h.fail(h.nilClass(node, "getter-outcome"), "%s: %s err=%v, model err=%v (node %s)", at, o.name, o.err, o.want.Err, node)
 				return
 			}
 			if o.err == nil && o.got != o.wstr {
@@ -369,12 +458,16 @@ func (h *hist) probeAt(t handle, name string, idx int, why string) {
 			}
 		}
 		h.res.SetAdd("probed_kind", kindOf(node))
+		if h.nilOnNil[node] {
+			h.res.Ev("probes_at_nil_merged_onto_nil", 1)
+		}
 	}
 	for _, e := range []error{e1, e2, e3, e4, e5, herr} {
 		if p := obs.TypedErrorProblem(e); p != "" {
 			h.res.Violate("untyped-error", "%s: %s", at, p)
 		}
 	}
+	h.countAt(t, name, idx, at)
 	// Child + structural observers
 	ch, cerr := t.c.Child(name, idx, h.o...)
 	h.res.Eval(1)
@@ -413,29 +506,88 @@ func (h *hist) probeAt(t handle, name string, idx int, why string) {
 				h.fail("getfields", "%s: GetFields=%v lacks %q", at, ch.GetFields(), k)
 				return
 			}
-			// CountField(name) looks at top-level names only
+			// the raw top-level names of the child, without options
 			n, err := ch.CountField(k)
-			want := 1
-			switch {
-			case v.Kind == model.KNil:
-				want = 0
-			case v.IsSub() && len(v.A) > 0:
-				want = len(v.A)
-			case v.IsSub() && (len(v.D) == 0 || v.HasA):
-				// an empty container, or a dictionary that once was an empty
-				// list, counts 0 or 1 depending on how it came to be; the
-				// statement does not pin that down
-				if err == nil && (n == 0 || n == 1) {
-					want = n
-				}
+			want, lenient := wantCount(v)
+			if lenient && err == nil && (n == 0 || n == 1) {
+				want = n
 			}
 			if err != nil || n != want {
-				h.fail("countfield", "%s: CountField(%q)=(%d,%v) want %d for %s", at, k, n, err, want, v)
+				h.fail(h.nilClass(v, "countfield"), "%s: CountField(%q)=(%d,%v) want %d for %s", at, k, n, err, want, v)
 				return
 			}
 		}
 		h.res.Eval(3)
 	}
+}
+
+// nilClass narrows the signature of a deviation observed at a nil setting that
+// came from merging nil onto nil, or at a container that was a nil setting
+// until something was written through a child handle of the nil.
+func (h *hist) nilClass(node *model.Node, base string) string {
+	if node != nil && h.nilOnNil[node] {
+		return "nil-merged-onto-nil-reads-as-object"
+	}
+	if node != nil && h.wasNil[node] {
+		return "write-through-child-of-nil-setting-not-visible-in-parent"
+	}
+	return base
+}
+
+// countAt asks CountField with the address spelled as a name (CountField has
+// no idx argument: with a separator the index is the last segment, without one
+// the name alone is asked) and the history's options, like a getter.
+func (h *hist) countAt(t *handle, name string, idx int, at string) {
+	if name == "" {
+		return // CountField("") is the total, compared through the child below
+	}
+	cname, cfs := name, model.ParsePath(name, -1, h.sep)
+	if idx >= 0 && h.sep != "" {
+		cname = name + h.sep + strconv.Itoa(idx)
+		cfs = model.ParsePath(cname, -1, h.sep)
+	}
+	n, err := t.c.CountField(cname, h.o...)
+	h.res.Eval(1)
+	shape := "plain-name"
+	switch {
+	case len(cfs) > 1:
+		shape = "dotted-path"
+	case cfs[0].IsI:
+		shape = "index-name"
+	}
+	h.res.Ev("countfield_by_address:"+shape, 1)
+	if p := obs.TypedErrorProblem(err); p != "" {
+		h.res.Violate("untyped-error", "%s: CountField(%q): %s", at, cname, p)
+	}
+	node, ge := model.Get(t.n, cfs)
+	if ge != model.ENone || node == nil {
+		if err == nil {
+			h.note("countfield-found-missing:"+shape, "%s: CountField(%q)=%d but the model has nothing there", at, cname, n)
+		}
+		return
+	}
+	if err != nil {
+		// the getters find the setting at this address, CountField does not
+		sig := "countfield"
+		if shape != "plain-name" {
+			sig = "countfield-does-not-parse-name:" + shape
+		}
+		h.note(sig, "%s: CountField(%q)=(%d,%v), the tree holds %s there", at, cname, n, err, node)
+		return
+	}
+	want, lenient := wantCount(node)
+	if lenient && (n == 0 || n == 1) {
+		want = n
+	}
+	if n != want {
+		sig := "countfield"
+		if shape != "plain-name" {
+			sig = "countfield-by-address-value:" + shape
+		}
+		h.note(h.nilClass(node, sig), "%s: CountField(%q)=%d want %d for %s", at, cname, n, want, node)
+		return
+	}
+	h.res.Ev("countfield_by_address_found:"+shape, 1)
 }
 
 func kindOf(n *model.Node) string {
